@@ -49,6 +49,9 @@ Direct oracles (failing-input search):
     every step;
   * every class-instance filter called with its optional arguments and then with
     the defaults on shared Environments (oracle-only stream);
+  * every loader kind (PackageLoader over several package paths included) with
+    shadowed names, the same names loaded again and again: equal to a freshly
+    built loader every time;
   * round-8 reviewer observations: one loader shared by two Environments with
     different options, Templates held while other callers load the same name, the
     documentation's tag-dispatching loader under the caching mixin, an edited
